@@ -275,19 +275,15 @@ fn parse_and_compare(text: &str, expected: &AstNode, names: &BTreeSet<String>) -
 /// Defect-class diagnosis: a known class is recognised by the shape of the text that fails, so that
 /// a finding is identified by its cause and any other failure keeps a specific key of its own.
 fn diagnose(text: &str, layout: Layout, t: &T) -> Option<&'static str> {
-  // (6) only one comment is skipped between two tokens
-  if matches!(layout, Layout::TwoComments) {
-    return Some("layout:two-comments-in-a-row-between-two-tokens");
-  }
   // (1) `function` must be followed by `(` after white space only: a comment there is rejected
-  if matches!(layout, Layout::BlockComments | Layout::LineComments | Layout::CommentShapes) && contains_function(t) {
+  if matches!(layout, Layout::BlockComments | Layout::LineComments | Layout::CommentShapes | Layout::TwoComments) && contains_function(t) {
     return Some("layout:comment-between-function-keyword-and-parenthesis");
   }
   // the every-white-space layout is diagnosed on its ordinary-space form
   let normalised: String = if matches!(layout, Layout::EveryWhiteSpace) { text.chars().map(|c| if crate::term::FEEL_WHITE_SPACE.contains(&c) { ' ' } else { c }).collect() } else { text.to_string() };
   // (4) NAME . NAME . NAME directly after `[` or `(` is taken for the start of an interval
   {
-    let plain = strip_block_comments(&normalised).replace("// c ) \"\n", " ");
+    let plain = strip_block_comments(&normalised).replace("// c ) \"\n", " ").replace("// b )\n", " ");
     let toks: Vec<&str> = plain.split_whitespace().collect();
     let compact: String = toks.join("");
     let bytes: Vec<char> = compact.chars().collect();
@@ -381,12 +377,17 @@ fn after_instance_type(text: &str) -> Option<(&str, usize)> {
     Some(o) => o,
     None => return Some(("", consumed)),
   };
-  let rest = rest[of + 2..].trim_start();
-  let rest = match rest.strip_prefix("/*").and_then(|r| r.find("*/").map(|e| &r[e + 2..])) {
-    Some(r) => r.trim_start(),
-    None => rest,
-  };
-  let rest = rest.strip_prefix("// c ) \"\n").map(|r| r.trim_start()).unwrap_or(rest);
+  let mut rest = rest[of + 2..].trim_start();
+  // any number of block and line comments before the type
+  loop {
+    if let Some(r) = rest.strip_prefix("/*").and_then(|r| r.find("*/").map(|e| &r[e + 2..])) {
+      rest = r.trim_start();
+    } else if let Some(r) = rest.strip_prefix("//").and_then(|r| r.find('\n').map(|e| &r[e + 1..])) {
+      rest = r.trim_start();
+    } else {
+      break;
+    }
+  }
   for ty in ["number", "list<string>"] {
     if let Some(r) = rest.strip_prefix(ty) {
       return Some((r, consumed));
